@@ -387,14 +387,26 @@ func trunc(s string, n int) string {
 	return s
 }
 
+// errClass turns an error text into a stable slug: the first words of the message without addresses and numbers.
 func errClass(msg string) string {
 	m := strings.ToLower(msg)
-	for _, k := range []string{"duplicate", "not found", "unknown", "invalid", "mismatch", "negative", "exceed", "empty", "decode", "hex", "unmarshal", "nil pointer", "index out of range", "overflow"} {
-		if strings.Contains(m, k) {
-			return strings.ReplaceAll(k, " ", "-")
+	if i := strings.Index(m, "\n"); i > 0 {
+		m = m[:i]
+	}
+	var words []string
+	for _, w := range strings.FieldsFunc(m, func(r rune) bool { return !(r >= 'a' && r <= 'z' || r >= '0' && r <= '9' || r == '-' || r == '_') }) {
+		if len(w) < 2 || strings.HasPrefix(w, "0x") || strings.HasPrefix(w, "exo1") || strings.ContainsAny(w, "0123456789") {
+			continue
+		}
+		words = append(words, w)
+		if len(words) == 6 {
+			break
 		}
 	}
-	return "other"
+	if len(words) == 0 {
+		return "other"
+	}
+	return strings.Join(words, "-")
 }
 
 func canonJSON(raw json.RawMessage) string {
